@@ -144,26 +144,6 @@ func (p *ProbeImpl) Lend(q probe.LentProxy) error {
 	return nil
 }
 
-func init() {
-	// the server ranges over its connections (a map keyed by Channel): they
-	// are taken in the order of their peers' addresses
-	zzsim.KeyOrder = func(k interface{}) (string, bool) {
-		if ch, ok := k.(bus.Channel); ok && ch.EndPoint() != nil {
-			name := ch.EndPoint().String()
-			if s := zzsim.Current(); s != nil && s.Ext["channels_last_first"] != nil {
-				// (a run may ask for the opposite order)
-				b := []byte(name)
-				for i := range b {
-					b[i] = 255 - b[i]
-				}
-				name = string(b)
-			}
-			return name, true
-		}
-		return "", false
-	}
-}
-
 // LentPublicID is the identifier under which the service exposes the object
 // lent to this one (0 when nothing was lent).
 func (p *ProbeImpl) LentPublicID() uint32 {
